@@ -324,6 +324,7 @@ Section Walk.
     destruct x as [o1|o1]; [|split; [reflexivity|]; split; [exact C1|]; split; [exact F1|exact K1]].
     destruct (a_close_obj p); [|split; [reflexivity|]; split; [exact C1|]; split; [exact F1|exact K1]].
     destruct (r_state o1); try (split; [reflexivity|]; split; [exact C1|]; split; [exact F1|exact K1]).
+    destruct (r_writer o1) as [wr1|] eqn:Ewr1; [|split; [reflexivity|]; split; [exact C1|]; split; [exact F1|exact K1]].
     apply (par_frame OkR c c1 _ _ F1).
     pose proof (par_error o1 true c1 cs1 K1 C1) as (E2 & C2 & F2 & K2).
     destruct (error o1 true c1) as [o2 c2], (error o1 true cs1) as [o2s cs2]. cbn [fst snd] in *. subst o2s.
